@@ -224,6 +224,12 @@ class MonitorContainerCleanup(MonitorTombstoneAction):
         running = os.path.join(self._tm_env.running_dir, data['id'])
         data_dir = supervisor.open_service(running, existing=False).data_dir
         cleanup = os.path.join(self._tm_env.cleanup_dir, data['id'])
+        if os.path.islink(cleanup) and os.path.islink(running):
+            # An older container of this instance is still waiting under the
+            # instance name: do not replace its link, hand this one over under
+            # the container's own name (as AppCfgMgr._terminate does).
+            cleanup = os.path.join(self._tm_env.cleanup_dir,
+                                   os.path.basename(os.readlink(running)))
 
         # pid1 will SIGABRT(6) when there is an issue
         # NOTE: if the running link is already gone (container was
